@@ -315,11 +315,13 @@ pub enum NextItem {
 /// Deepest nesting of parentheses and prefix operators that is handed to the recursive line parser
 const MAX_NESTING: usize = 64;
 
-/// Whether the nesting of parentheses and prefix operators in a line is shallow enough for the recursive parser
+/// Whether the nesting of parentheses and prefix operators in a line is shallow enough for the recursive parser.
+/// Only the part in front of the trailing comment counts: a rule of dashes in a comment nests nothing.
 fn nesting_is_parsable(line: &str) -> bool {
+    let code = document::code_part(line).unwrap_or(vec![line]);
     let mut depth: usize = 0;
     let mut prefix_run: usize = 0;
-    for c in line.chars() {
+    for c in code.iter().flat_map(|piece| piece.chars()) {
         match c {
             '(' => {
                 depth += 1;
